@@ -95,6 +95,8 @@ def show(t):
         return '%s{%s}' % (t[1], ', '.join('%s=%s' % (a, show(b)) for a, b in t[2]))
     if k == 'alloc':
         return 'new-%s@%s' % (t[1], t[2])
+    if k == 'mutated':
+        return '%s after .%s(%s)' % (show(t[1]), t[2], ', '.join(show(a) for a in t[3]))
     if k in ('listcomp', 'setcomp', 'genexp'):
         return '[%s for elem in %s%s]' % (show(t[1]), ', '.join(show(g[0]) for g in t[2]),
                                           ''.join(' if ' + show(c) for g in t[2] for c in g[1]))
@@ -122,6 +124,7 @@ _UNOPS = {ast.Not: 'not', ast.USub: '-', ast.UAdd: '+', ast.Invert: '~'}
 
 
 UNSUPPORTED = ('unsupported',)
+_INPLACE = {'sort', 'reverse', 'append', 'extend', 'insert', 'pop', 'remove', 'clear', 'update', 'setdefault', 'popitem', 'add', 'discard'}
 _FUNC_BY_ID = {}      # id(FunctionDef) -> node, for ('func', name, id) terms (nodes stay alive with their module)
 
 # The vocabulary of the rules: functions of the repository that checks recognise by name as opaque operations
@@ -538,6 +541,9 @@ class SymExec(object):
             key = ('@sub', b, i)
             if key in st.env:
                 return st.env[key]
+            if b[0] in ('tuple', 'list') and i[0] == 'const' and isinstance(i[1], int) and not isinstance(i[1], bool) \
+                    and -len(b[1]) <= i[1] < len(b[1]) and not any(x[0] == 'star' for x in b[1]):
+                return b[1][i[1]]       # element of a display
             if b[0] == 'dict' and b[1] and all(k is not None and k[0] == 'const' for k, _ in b[1]):
                 if i[0] == 'const':
                     for k_, v_ in b[1]:
@@ -596,6 +602,11 @@ class SymExec(object):
                     st.env[n.func.value.id] = ('list', f[1][1] + (args[0],))
                 elif args[0][0] in ('list', 'tuple'):
                     st.env[n.func.value.id] = ('list', f[1][1] + tuple(args[0][1]))
+            if f[0] == 'attr' and f[2] in _INPLACE and isinstance(n.func, ast.Attribute) and isinstance(n.func.value, ast.Name) \
+                    and f[1][0] in ('listcomp', 'list', 'dictcomp', 'dict', 'setcomp', 'set', 'call', 'mutated') \
+                    and st.env.get(n.func.value.id) == f[1] and not (f[1][0] == 'list' and f[2] in ('append', 'extend')):
+                # an in-place change of a value held in a local: the local no longer denotes the term it was bound to
+                st.env[n.func.value.id] = ('mutated', f[1], f[2], tuple(args))
             ev_ = ('call', t, n)
             st.events.append(ev_)
             if self._guard:
